@@ -56,8 +56,10 @@ LEVEL_NOTE = ("Modelled per region and tied through the hook: variable creation,
               "on the dump (no overlap across regions of one pass; adjacent segments respect the position / fixedOrder / order rules "
               "of CmpLineOrder), each proved sound for the modelled loops (regions_do_not_overlap for the region-growing loop, "
               "linesort_respects_rules for linesort's insertion loop with any comparator agreeing with those rules); CmpLineOrder::operator() and updatePositionsFromSolver are hand models (not "
-              "regenerated). The hypothesis `nextSep o s <= s` of the retry theorems is proved for exact arithmetic "
-              "(reduction_nonincreasing_exact) and observed for doubles (the dumped distances equal the model's IEEE evaluation). "
+              "regenerated). The hypothesis of the retry theorems (`nextSep` does not increase the distance at any state the loop "
+              "REACHES; the unbounded form was false for roundDouble, witness in Props/C10Region) is proved for exact arithmetic for all "
+              "distances (reduction_nonincreasing_exact) and for `roundDouble` with ideal distance 10 (example at the end of "
+              "Props/C10Region.lean), and observed for doubles (the dumped distances equal the model's IEEE evaluation). "
               "Without the hook in the tree under test the harness prints `hook 0` and only the route-level checks run. "
               "'Wide enough' is the generator's construction W >= (m+1)*d for one straight corridor with all end "
               "point ordinates outside the corridor range; approach channels beside the blocks are unbounded. Bound checked "
